@@ -84,6 +84,7 @@ Viol ==
   (IF C06_ExitZero' THEN {} ELSE {"C06_ExitZero"}) \cup
   (IF C07_EmittedParses' THEN {} ELSE {"C07_EmittedParses"}) \cup
   (IF C07_BadResultReported' THEN {} ELSE {"C07_BadResultReported"}) \cup
+  (IF C07_OutputWellFormed' THEN {} ELSE {"C07_OutputWellFormed"}) \cup
   (IF C12_DryRunNeverWrites' THEN {} ELSE {"C12_DryRunNeverWrites"}) \cup
   (IF C12_DescriptionsOnStderrOnly' THEN {} ELSE {"C12_DescriptionsOnStderrOnly"}) \cup
   (IF C16_Atomic' THEN {} ELSE {"C16_Atomic"}) \cup
